@@ -156,11 +156,13 @@ pub fn parallel_parse(
 #[cfg(feature = "verif-hooks")]
 fn verif_reorder(
     rx: crossbeam::channel::Receiver<anyhow::Result<ParsedData>>,
-) -> Vec<anyhow::Result<ParsedData>> {
-    let mut buffered: Vec<anyhow::Result<ParsedData>> = rx.into_iter().collect();
+) -> Box<dyn Iterator<Item = anyhow::Result<ParsedData>>> {
+    // Without the variable nothing is buffered: the collector reads the channel as it does
+    // without the hook (and stops reading it at the first error).
     let Ok(order) = std::env::var("TYPESHARE_VERIF_ORDER") else {
-        return buffered;
+        return Box::new(rx.into_iter());
     };
+    let mut buffered: Vec<anyhow::Result<ParsedData>> = rx.into_iter().collect();
     let key = |r: &anyhow::Result<ParsedData>| match r {
         Ok(d) => {
             let mut names: Vec<String> = d
@@ -204,5 +206,10 @@ fn verif_reorder(
     };
     let mut slots: Vec<Option<anyhow::Result<ParsedData>>> =
         buffered.into_iter().map(Some).collect();
-    perm.into_iter().filter_map(|i| slots[i].take()).collect()
+    Box::new(
+        perm.into_iter()
+            .filter_map(move |i| slots[i].take())
+            .collect::<Vec<_>>()
+            .into_iter(),
+    )
 }
